@@ -56,6 +56,11 @@ def run(ck, F):
     ck.rule("R4", "the bytes written are those of one write_xml of the document returned by read_xml on the files of the input path")
     ck.rule("R5", "the sibling scan uses Path::parent only through an emptiness guard (bare file name => current directory)")
     ck.rule("R6", "no stale tail: the output is written with truncation (fs::write / File::create)")
+    _CONSTS.clear()
+    for cr_ in (F.bin, F.lib):
+        for c_ in cr_.items.get("consts", []):
+            if isinstance(c_.get("value"), str):
+                _CONSTS[c_["path"]] = c_["value"]
     mb = F.bin.body("main")
     if mb is None or not mb.get("mir"):
         ck.undecided("R1", "main", "-", "zeep::main not found")
@@ -163,7 +168,7 @@ def run(ck, F):
             if files and all(o.kind == "call" and o.bb == ibb for o in files):
                 inp = M.trace(B, it["args"][0], IDENT)
                 inp = M.trace(B, it["args"][0], PATH_IDENT)
-                inp_ok = bool(inp) and all(_is_get_one(B, o, "from_file") for o in inp)
+                inp_ok = _input_origins(B, inp)
                 if inp_ok:
                     ck.ok("R4", "document-chain", sp(B, wbb), "write_xml(read_xml(read_input_files(Path::new(--input))))", fn="main")
                 else:
@@ -251,6 +256,16 @@ def _none_arm_blocks(B, arg):
     return out
 
 
+EMPTY_DEFAULTS = ("PathBuf::new", "String::new", "default::Default::default")
+
+
+def _input_origins(B, src):
+    """the origins are the --input argument, possibly with the empty path/string as the value of the (unreachable) absent case"""
+    got = [x for x in src if _is_get_one(B, x, "from_file")]
+    rest = [x for x in src if x not in got]
+    return bool(got) and all(x.kind == "call" and (M.Body.callee_decl(x.term) or "").endswith(EMPTY_DEFAULTS) for x in rest)
+
+
 def _default_path(F, B, o):
     """o is a call origin `Path::with_extension(input, "rs")` with input traced to the --input argument"""
     if not (o.kind == "call" and (M.Body.callee_decl(o.term) or "").endswith("Path::with_extension")):
@@ -258,7 +273,7 @@ def _default_path(F, B, o):
     if not _const_arg(B, o.term, "rs"):
         return False
     src = M.trace(B, o.term["args"][0], PATH_IDENT)
-    return bool(src) and all(_is_get_one(B, x, "from_file") for x in src)
+    return _input_origins(B, src)
 
 
 def _closure_default(F, B, operand):
@@ -338,10 +353,25 @@ def rule_output_path(ck, F, B, t, site):
         ck.ok("R3", "output-path", site, "output path = --output, else input.with_extension(\"rs\")", fn="main")
 
 
+_CONSTS = {}   # named string constants of the analysed crates: path -> value (filled in run)
+
+
+def _const_text(c):
+    """the text of a constant operand: a literal, or a named `const X: &str` evaluated by the compiler"""
+    if c.get("str") is not None:
+        return c["str"]
+    name = c.get("uneval")
+    if name:
+        hits = [v for p_, v in _CONSTS.items() if p_ == name or p_.endswith("::" + name) or name.endswith("::" + p_)]
+        if len(set(hits)) == 1:
+            return hits[0]
+    return None
+
+
 def _const_arg(B, t, text):
     for a in t["args"]:
         for o in M.trace(B, a, M.IDENTITY_CALLS):
-            if o.kind == "const" and (o.const.get("str") == text):
+            if o.kind == "const" and _const_text(o.const) == text:
                 return True
     return False
 
